@@ -954,6 +954,8 @@ def _plaq_params():
                         if opt == "full-bond" and (dense is not None or first is None):
                             continue
                         pattern = "all" if shape != (3, 3) else "rows"
+                        if shape == (3, 3) and (bx, by) == (1, 1) and first == "y" and dense is False:
+                            continue        # certificate out of reach (the 'cols' instance of this cell is listed below)
                         q = shape != (3, 3) and opt == "mps" and ((first is None and dense is None) or (first == "x" and dense is False and (bx, by) == (1, 1))
                                                                   or (first == "y" and dense is True and (bx, by) == (2, 2)))
                         out.append({"shape": shape, "bsz": (bx, by), "first": first, "dense": dense, "opt": opt, "pattern": pattern,
@@ -961,6 +963,7 @@ def _plaq_params():
     for bx, by in ((1, 1), (2, 2), (1, 2)):
         for first in ("x", "y"):
             out.append({"shape": (3, 3), "bsz": (bx, by), "first": first, "dense": None, "opt": "mps", "pattern": "cols", "_tiers": _T})
+    out.append({"shape": (3, 3), "bsz": (1, 1), "first": "y", "dense": False, "opt": "mps", "pattern": "cols", "_tiers": _T})
     return out
 
 
@@ -1110,7 +1113,7 @@ def _cc_params():
                 if chi != 2 and opt not in ("default", "late", "basic", "gauges"):
                     continue        # with chi >= every product bond nothing is ever compressed: the option is dead
                 q = (geom in ("ring4", "chord4") and opt in ("default", "late", "basic", "tg0") and chi == 2) or \
-                    (geom == "ring4open" and opt == "default" and chi in (2, 4))
+                    (geom == "ring4open" and opt == "default" and chi in (4, None))
                 out.append({"geom": geom, "chi": chi, "opt": opt, "_tiers": _Q if q else _T})
     return out
 
@@ -1128,7 +1131,7 @@ def contract_compressed_all_paths(mk, geom, chi, opt):
                tc.maybe_unwrap, decomp.compute_oblique_projectors)
     if mk.sym and opt == "gauges-all":
         return _numeric_only(mk, "gauge_all_simple iterates to a numerical tolerance")
-    if mk.sym and ((geom in ("chord4", "full4") and chi == 2) or (geom == "full4" and chi == 4)):
+    if mk.sym and ((geom in ("chord4", "full4", "ring4open") and chi == 2) or (geom == "full4" and chi == 4)):
         return _numeric_only(mk, "rank-2 compressions of merged tensors (2 x 2 SVD / chained QR with absorbed square roots): "
                                  "no certificate within the engine's degree bound")
     tn, out = graph_tn(mk, geom, kind="real", numkind="cplx")
@@ -1205,6 +1208,8 @@ def contract_around_exact(mk, geom, tags, chi, opt):
     was compressed is within the cap right afterwards"""
     mk.encodes(tc.TensorNetwork.contract_around, tc.TensorNetwork._contract_around_tids, tc.TensorNetwork.get_tree_span,
                tc.TensorNetwork._contract_compressed_tid_sequence, tc.TensorNetwork._compress_between_tids)
+    if mk.sym and chi == 2 and opt in ("span", "eq") and geom != "ring4":
+        return _numeric_only(mk, "compressions of pairs that are contracted next / rescaled tensors: no certificate within the engine's degree bound")
     tn, out = _ca_network(mk, geom)
     want = exact(tn, out)
     w = Watch()
@@ -1404,7 +1409,10 @@ AG_OPTS = {
     "l2bp": dict(method="l2bp"),
     "l2bp-nocanon": dict(method="l2bp", canonize=False),
 }
+_ABS = "absorb='both' / chained one-sided gauges split square roots of singular values: no certificate within the engine's degree bound"
 _AG_NUMERIC_ONLY = {"superorthogonal": "simple-update gauging iterates to a tolerance", "l2bp": "belief propagation iterates to a tolerance",
+                    "local-early-nocanon": _ABS, "local-early-basic": _ABS, "local-early-left": _ABS, "local-early-right": _ABS,
+                    "local-late-nocanon": _ABS,
                     "local-early": "virtual-tree oblique projectors: no certificate within the engine's degree bound",
                     "local-late": "virtual-tree oblique projectors: no certificate within the engine's degree bound",
                     "projector": "simple-update gauging iterates to a tolerance", "projector-nocanon": "oblique projectors from Gram "
@@ -1418,7 +1426,7 @@ def _ag_params():
     for geom in ("pair2", "path3", "ring3"):
         for opt in AG_OPTS:
             for cap in (4, 6, None):
-                q = cap == 4 and geom == "pair2" and opt in ("local-early-nocanon", "local-late-nocanon", "local-early-basic", "projector-nocanon", "su-nocanon")
+                q = cap == 4 and geom == "pair2" and opt in ("local-late-right", "local-early-nocanon", "projector-nocanon", "su-nocanon")
                 out.append({"geom": geom, "opt": opt, "cap": cap, "_tiers": _Q if q else _T})
     return out
 
@@ -1534,11 +1542,17 @@ def projector_schemes_exact(mk, shape, seq, call, two):
     Lx, Ly = shape
     if two and mk.sym:
         return _numeric_only(mk, "cuts in both lattice directions: no product-cut instance exists")
+    if mk.sym and "strip" in call:
+        return _numeric_only(mk, "sign / magnitude split of the final scalar branches on a quantity with a fractional power")
+    if mk.sym and (len(seq) > 1 or max(shape) > 4):
+        return _numeric_only(mk, "several projector steps: the Gram matrices of already merged regions are out of reach")
     tn = lattice2d(mk, Lx, Ly, _cut_pattern(seq[0]), kind="real", numkind="cplx")
     want = exact(tn)
     kw = {"max_unfinished": 0} if two else {}
+    # lazy projectors of a first sweep belong to both regions of a perpendicular cut: its exact bond is 2**3
+    cap = 16 if two else (4 if max(Lx, Ly) < 5 else 8)
     with spectrum("pos"):
-        res = _PROJ_CALLS[call](tn, 4 if max(Lx, Ly) < 5 else 8, seq, kw)
+        res = _PROJ_CALLS[call](tn, cap, seq, kw)
     if "lazy" in call:
         mk.same("lazy: a network with the projectors left in is returned", isinstance(res, qtn.TensorNetwork), True)
     mk.eq(f"{call}(max_bond>=exact, cutoff=0.0, sequence={seq}) == exact value", value(res), want)
@@ -1829,6 +1843,8 @@ def periodic_exact(mk, cyclic, side, call):
                c2.TensorNetwork2D.coarse_grain_hotrg)
     if mk.sym and call.endswith("default-seq") and cyclic != "y":
         return _numeric_only(mk, "default sequence sweeps across cuts of both kinds: no product-cut instance")
+    if mk.sym and side[0] in cyclic and cyclic != "xy" and call in ("projector2d", "ctmrg", "hotrg", "ctmrg-default-seq"):
+        return _numeric_only(mk, "sweep along the periodic direction: the regions' Gram matrices are out of reach")
     if mk.sym and cyclic == "xy" and call in ("projector2d", "ctmrg", "hotrg"):
         return _numeric_only(mk, "doubly periodic lattice: the regions' Gram matrices have no product-cut instance within reach")
     Lx, Ly = (4, 3) if side[0] == "x" else (3, 4)
